@@ -26,6 +26,10 @@ Ev(n) == l <= Len(Log) /\ E.e = n /\ l' = l + 1
 W == E.w
 
 Empty == <<>>
+
+\* AiOpen, AiReopen and AiClose are logged BEFORE the file is touched (they are the kill points in front of the
+\* write); when the process died at such an event (dies = TRUE) the file is as it was
+Died == "dies" \in DOMAIN E /\ E.dies
 Init == l = 1 /\ ent = Empty /\ open = Empty
 
 Put(f, k, v) == IF k \in DOMAIN f THEN [f EXCEPT ![k] = v] ELSE f @@ (k :> v)
@@ -44,7 +48,7 @@ TrHit == /\ Ev("AiHit")
          /\ UNCHANGED <<ent, open>>
 
 \* Lookup, miss: only when the entry is absent, not closed, or stored under another key; the entry is rewritten
-TrOpen == /\ Ev("AiOpen")
+TrOpen == /\ Ev("AiOpen") /\ ~Died
           /\ ~(E.afile \in DOMAIN ent /\ ent[E.afile].st = "closed" /\ ent[E.afile].hash = E.hash)
           /\ ent' = Put(ent, E.afile, [st |-> "open", hash |-> E.hash, n |-> 0, src |-> E.src])
           /\ open' = Put(open, W, E.afile)
@@ -60,7 +64,7 @@ TrClosed == /\ Ev("AiClosed")
             /\ open' = Del(open, W)
 
 \* unmatchedSuppression findings are appended after the analysis: the entry is reopened without its end tag
-TrReopen == /\ Ev("AiReopen")
+TrReopen == /\ Ev("AiReopen") /\ ~Died
             /\ IF E.afile \in DOMAIN ent
                THEN /\ ent' = [ent EXCEPT ![E.afile].st = "open"]
                     /\ open' = Put(open, W, E.afile)
@@ -70,10 +74,13 @@ TrReopen == /\ Ev("AiReopen")
 \* the process was killed: whatever was being written stays open (no end tag)
 TrKilled == /\ Ev("Killed") /\ open' = Empty /\ UNCHANGED ent
 
+SkipDied == /\ l <= Len(Log) /\ E.e \in {"AiOpen", "AiReopen"} /\ Died
+            /\ l' = l + 1 /\ UNCHANGED <<ent, open>>
+
 Skip == /\ l <= Len(Log) /\ E.e \in {"AiOpened", "AiClose", "FilesTxt", "CheckBegin", "CheckEnd", "Exit", "WpDirBegin", "WpDirEnd", "UnmatchedDone", "CacheHit", "CacheMiss"}
         /\ l' = l + 1 /\ UNCHANGED <<ent, open>>
 
-Next == TrHeader \/ TrHit \/ TrOpen \/ TrWrite \/ TrClosed \/ TrReopen \/ TrKilled \/ Skip
+Next == TrHeader \/ TrHit \/ TrOpen \/ TrWrite \/ TrClosed \/ TrReopen \/ TrKilled \/ Skip \/ SkipDied
 Spec == Init /\ [][Next]_<<l, ent, open>>
 
 Accepted ==
